@@ -75,6 +75,9 @@ class Lookup(T.NamedTuple):
     required: bool = True
     allow_fallback: T.Optional[bool] = None  # unset / true / false
     explicit_fallback: bool = False          # fallback: ['sub', 'foo_dep'] given in the call
+    static: T.Optional[bool] = None          # static: unset / true / false
+    has_var: bool = True                     # the link names a VARIABLE of the subproject (fallback: [sub, var] or
+                                             # `name = var` in [provide]); False: the subproject must override the name
 
 
 class World(T.NamedTuple):
@@ -85,21 +88,61 @@ class World(T.NamedTuple):
     provide: bool = False                    # a wrap file's [provide] section names the dependency
     sub_on_disk: bool = True                 # the subproject's tree is present (nothing to download)
     sub_version: T.Optional[str] = None      # version of the dependency the subproject declares
+    sub_overrides: bool = False              # the subproject calls meson.override_dependency(name, dep) (no static:)
+    main_dl: str = 'shared'                  # default_library of the main project
+    sub_dl_how: str = 'same'                 # 'same' | 'default_options' (on subproject()/dependency()) | 'cmdline' (-Dsub:default_library=)
+    sub_dl_value: T.Optional[str] = None     # the value given that way
 
 
 class State:
     """What changes during one configuration."""
 
-    def __init__(self, override: T.Optional[Answer] = None, configured: bool = False) -> None:
+    def __init__(self, override: T.Optional[Answer] = None, configured: bool = False,
+                 override_slots: T.Optional[T.FrozenSet[T.Optional[bool]]] = frozenset({None, True, False}),
+                 sub_dl: T.Optional[str] = None) -> None:
         self.override = override             # answer registered by an explicit meson.override_dependency()
+        # `static:` values of lookups the override applies to (meson.yaml, override_dependency `static`: "If not
+        # specified it is assumed dep_object follows default_library option value"); None = not decided
+        self.override_slots = override_slots
         self.configured = configured         # the fallback subproject has already been configured
-        self.sticky: T.Optional[Answer] = None  # an earlier lookup of the name found this
-        self.sticky_args: T.Optional[Lookup] = None
+        self.sub_dl = sub_dl                 # default_library the subproject was configured with (None = not decided)
+        # an earlier lookup (with the same static:) of the name found this: static -> (answer, arguments)
+        self.sticky: T.Dict[T.Optional[bool], T.Tuple[Answer, Lookup]] = {}
 
-    def copy(self) -> 'State':
-        s = State(self.override, self.configured)
-        s.sticky, s.sticky_args = self.sticky, self.sticky_args
-        return s
+
+def slots(dl: T.Optional[str]) -> T.Optional[T.FrozenSet[T.Optional[bool]]]:
+    """Lookups (by their static:) an override made WITHOUT static: applies to, given the default_library of the
+    project that made it."""
+    if dl is None:
+        return None
+    out: T.Set[T.Optional[bool]] = {None}
+    if dl in ('static', 'both'):
+        out.add(True)
+    if dl in ('shared', 'both'):
+        out.add(False)
+    return frozenset(out)
+
+
+def pre_dl(w: World) -> str:
+    """default_library of a subproject configured by subproject() / by a lookup without static:."""
+    if w.sub_dl_how in ('cmdline', 'default_options') and w.sub_dl_value:
+        return w.sub_dl_value
+    return w.main_dl
+
+
+def fallback_dl(w: World, lk: Lookup) -> T.Optional[str]:
+    """default_library of a fallback subproject configured by this lookup.  dependency.yaml `static`: "it also sets
+    default_library option accordingly on the fallback subproject if it was not set explicitly in default_options".
+    A conflicting -Dsub:default_library is not decided by the documents (None)."""
+    if lk.static is None:
+        return pre_dl(w)
+    want = 'static' if lk.static else 'shared'
+    if w.sub_dl_how in ('default_options', 'cmdline') and w.sub_dl_value:
+        # dependency.yaml says an explicit default_options entry wins over static:, the code forces static: over
+        # it (and over the command line): a docs-vs-code disagreement about OPTIONS, not about which dependency is
+        # returned - the cell is left undecided here
+        return want if w.sub_dl_value == want else None
+    return want
 
 
 def forced(w: World, lk: Lookup) -> bool:
@@ -168,31 +211,56 @@ def expect(w: World, st: State, lk: Lookup) -> T.Tuple[T.Set[Answer], str, T.Dic
     # rule 1: an explicit override wins unconditionally; a failing version constraint gives not-found,
     # never the system.
     if st.override is not None:
-        facts = dict(facts, system_must_not_be_consulted=True, no_subproject_from_lookup=True)
-        if satisfies(st.override[1], lk.constraint):
-            return {st.override}, 'doc', facts
-        return {_finish(NOTFOUND, lk)}, 'doc', facts
+        ovr = st.override if satisfies(st.override[1], lk.constraint) else _finish(NOTFOUND, lk)
+        if st.override_slots is not None and lk.static in st.override_slots:
+            return {ovr}, 'doc', dict(facts, system_must_not_be_consulted=True, no_subproject_from_lookup=True)
+        # the override was made for the other library type (or the documents do not decide which): open
+        allowed, _tag, facts = _expect_without_override(w, st, lk, base, facts)
+        allowed = set(allowed) | {ovr, _finish(NOTFOUND, lk)}
+        return allowed, 'open', dict(facts, system_must_not_be_consulted=False, no_subproject_from_lookup=False)
+    return _expect_without_override(w, st, lk, base, facts)
+
+
+def _expect_without_override(w: World, st: State, lk: Lookup, base: T.Optional[Answer],
+                             facts: T.Dict[str, T.Any]) -> T.Tuple[T.Set[Answer], str, T.Dict[str, T.Any]]:
     # rule 7 / dependency.yaml: "Once one of the name has been found ... subsequent calls for any of those
     # name will return the same value".
-    if st.sticky is not None:
+    if lk.static in st.sticky:
+        sticky, sticky_args = st.sticky[lk.static]
         facts = dict(facts, system_must_not_be_consulted=False, no_subproject_from_lookup=False)
-        same = satisfies(st.sticky[1], lk.constraint)
-        if st.sticky_args == lk:
-            return {st.sticky}, 'doc', facts            # same arguments -> same answer (property text)
-        allowed: T.Set[Answer] = {st.sticky} if same else {_finish(NOTFOUND, lk)}
+        same = satisfies(sticky[1], lk.constraint)
+        if sticky_args == lk:
+            return {sticky}, 'doc', facts            # same arguments -> same answer (property text)
+        allowed: T.Set[Answer] = {sticky} if same else {_finish(NOTFOUND, lk)}
         if base is not None:
             allowed.add(base)
         return allowed, ('doc' if len(allowed) == 1 else 'open'), facts
     if base is None:
         return {ERROR}, 'open', facts
     has_link = lk.explicit_fallback or (w.provide and lk.allow_fallback is not False)
+    allowed = {base}
+    tag = 'doc'
     if st.configured and has_link:
         alt = _finish(_sub_answer(w, lk), lk)
-        if alt == base:
-            return {base}, 'doc', dict(facts, no_subproject_from_lookup=False)
-        return {base, alt}, 'open', dict(facts, no_subproject_from_lookup=False,
-                                         system_must_not_be_consulted=facts['system_must_not_be_consulted'])
-    return {base}, 'doc', facts
+        facts = dict(facts, no_subproject_from_lookup=False)
+        if alt != base:
+            allowed.add(alt)
+            tag = 'open'
+    # a link WITHOUT variable name relies on the subproject's override, which was made for the library type of the
+    # subproject's default_library: decided only when that matches the lookup's static:
+    if has_link and w.sub_overrides and not lk.has_var and any(a[0] == 'sub' for a in allowed):
+        dl = st.sub_dl if st.configured else fallback_dl(w, lk)
+        sl = slots(dl)
+        if sl is None or lk.static not in sl:
+            allowed.add(_finish(NOTFOUND, lk))
+            tag = 'open'
+    # a subproject that overrides the name is configured AFTER another lookup of the name (with another static:)
+    # already resolved it: the override collides with the resolved one ("already been resolved or overridden");
+    # none of the documents says what the lookup then returns
+    if has_link and w.sub_overrides and not st.configured and st.sticky and any(a[0] == 'sub' for a in allowed):
+        allowed.add(_finish(NOTFOUND, lk))
+        tag = 'open'
+    return allowed, tag, facts
 
 
 def advance(w: World, st: State, lk: Lookup, observed: Answer, sub_configured: bool,
@@ -200,12 +268,15 @@ def advance(w: World, st: State, lk: Lookup, observed: Answer, sub_configured: b
     """Update the state after a lookup whose (already judged) answer was `observed`; `sub_configured` is the
     monitor's observation that the fallback subproject has been configured by now (it only widens later cells);
     `sub_overrides` is the answer the subproject registers with meson.override_dependency() when it is configured."""
-    if sub_configured and sub_overrides is not None and st.override is None:
-        st.override = sub_overrides
-    if observed and observed[0] in ('system', 'sub', 'override') and st.override is None and st.sticky is None:
-        st.sticky, st.sticky_args = observed, lk
-    if sub_configured or (observed and observed[0] == 'sub'):
+    newly = (sub_configured or bool(observed and observed[0] == 'sub')) and not st.configured
+    if newly:
         st.configured = True
+        st.sub_dl = fallback_dl(w, lk)
+        if sub_overrides is not None and st.override is None:
+            st.override = sub_overrides
+            st.override_slots = slots(st.sub_dl)
+    if observed and observed[0] in ('system', 'sub', 'override') and lk.static not in st.sticky:
+        st.sticky[lk.static] = (observed, lk)
 
 
 def selftest() -> None:
@@ -225,6 +296,15 @@ def selftest() -> None:
     assert expect(W(system=None), S(), L(required=False))[0] == {NOTFOUND}
     assert expect(W(system='2.0', fff='dep'), S(), L())[0] == {('system', '2.0')}
     assert expect(w, S(configured=True), L())[1] == 'open'
+    # static: x default_library (seeded regression C10-3): a fallback configured by a static lookup is built static,
+    # so the override it makes without static: applies to that lookup
+    wo = W(system=None, sub_version='2.1', sub_overrides=True)
+    lk = L(explicit_fallback=True, static=True, has_var=False)
+    assert expect(wo, S(), lk) [:2] == ({('sub', '2.1')}, 'doc')
+    assert expect(wo._replace(sub_dl_how='default_options', sub_dl_value='shared'), S(), lk)[1] == 'open'
+    assert expect(wo._replace(sub_dl_how='cmdline', sub_dl_value='static'), S(), lk)[1] == 'doc'
+    assert expect(wo, S(override=('override', '2.2'), override_slots=slots('static')), L(static=True))[:2] == ({('override', '2.2')}, 'doc')
+    assert expect(wo, S(override=('override', '2.2'), override_slots=slots('shared')), L(static=True))[1] == 'open'
     assert satisfies('2.0', '>=2') and not satisfies('1.1', '>=2') and satisfies('1.1', '<2') and not satisfies('2', '<2')
 
 
